@@ -58,6 +58,10 @@ def generate(tape, tier="quick"):
         # what the mask of each publication looks like: cells chosen by a rule on the coordinates, a masked array that
         # masks nothing and therefore has no mask array (np.ma.masked_where on a step without hits), an all-False array
         sc["mask_modes"] = [tape.weighted([("rule", 3), ("nomask", 2), ("allfalse", 1)]) for _ in range(3)]
+        if tape.chance(1, 3):
+            # the same physical mask declared in the metadata of BOTH ends, each in its own layout
+            sc["explicit_mask"] = True
+            sc["mask_modes"] = ["rule"] * 3
     return sc
 
 
@@ -99,8 +103,12 @@ def execute(sc):
     # ---- the link
     us, uc = sc["units"]
     static = bool(sc.get("static"))
-    out = Output(name="src", info=Info(time=None if static else dt(0), grid=ga, units=us), static=static)
-    inp = Input(name="dst", info=Info(time=None if static else dt(0), grid=gb, units=uc), static=static)
+    mkw_a, mkw_b = {}, {}
+    if sc.get("explicit_mask"):
+        mkw_a = {"mask": (np.round(fa * 7.3) % 3 == 0)}
+        mkw_b = {"mask": (np.round(mb.field(coef) * 7.3) % 3 == 0)}
+    out = Output(name="src", info=Info(time=None if static else dt(0), grid=ga, units=us, **mkw_a), static=static)
+    inp = Input(name="dst", info=Info(time=None if static else dt(0), grid=gb, units=uc, **mkw_b), static=static)
     f = 1.0
     if sc["scale"]:
         out >> Scale(2.0) >> inp
